@@ -85,7 +85,7 @@ def main(argv):
         else:
             for f in sorted(glob.glob(os.path.join(VERIF, 'corpus', 'C06', '*.txt'))):
                 runs.append(['text', f, cfg_of(f)])
-            runs.append(['gen', 240 if tier == 'quick' else 8000])
+            runs.append(['gen', 240 if tier == 'quick' else 6000])
         for args in runs:
             base = len(cases)
             for l in run_harness(v, args, seed):
